@@ -70,6 +70,10 @@ def gen(rng, ctx):
             cd["nodes"].append(["top", rng.choice(G.GATESN), True])
             cd["edges"] += [[x, "top"] for x in fan]
             n = "top"
+    if tps.get(n) in G.ALL_GATES and rng.random() < 0.1:
+        # n is the ONLY output, and a primary input lies outside its cone
+        cd["nodes"] = [[x, t, x == n] for x, t, _ in cd["nodes"]] + [["spare_in", "input", False]]
+        mode += "+sole_output"
     outs = G.cd_outputs(cd)
     if rng.random() < 0.08:
         # an unknown-value tie-off in another part of the circuit (never in the cone of n): cone-restricted
@@ -108,7 +112,9 @@ def check(case, ctx):
     n = case["n"]
     c = G.build(cg, cd, "sparse" if len(cd["nodes"]) % 3 == 0 else "graph")
     net = Net.of(c)
-    ctx.count(f"mode:{case['mode']}")
+    ctx.count(f"mode:{case['mode'].split('+')[0]}")
+    if "sole_output" in case["mode"]:
+        ctx.count("sole_output_with_input_outside_cone")
     ins = sorted(net.inputs())
     if len(ins) > 12:
         return
@@ -176,6 +182,46 @@ def check(case, ctx):
                 d = mv["sat"] ^ diff
                 j = (d & -d).bit_length() - 1
                 ctx.violation("sensitization_sat", f"under {sim.index_valuation(ins_all, j)} sat={sim.bit_at(mv['sat'], j)} but inverting {n!r} {'changes' if sim.bit_at(diff, j) else 'does not change'} endpoints {sorted(eset)}")
+
+    # ------------------------------------------------------------ the same query after a rewiring that keeps all counts
+    if eps and not xs and in_domain and len(cd["edges"]) % 3 == 0:
+        cone_e = set(eset)
+        for e in eset:
+            cone_e |= reach(net.preds, [e])
+        for g in sorted(cone_e):
+            if net.types[g] not in G.GATESN or len(net.preds[g]) < 2 or g == n:
+                continue
+            new_drv = [i for i in ins if i not in net.preds[g] and i not in cone_e]
+            if not new_drv:
+                continue
+            cb = G.build(cg, cd, "graph")
+            ok1, _ = ctx.call(cg.tx.sensitization_transform, cb, n, eps)  # first analysis of this object
+            old = sorted(net.preds[g])[0]
+            cb.disconnect(old, g)
+            cb.connect(new_drv[0], g)  # same number of nodes and edges, another cone
+            nb = Net.of(cb)
+            fi_b = set()
+            for e in eset:
+                fi_b |= reach(nb.preds, [e])
+            if not ok1 or not (n in fi_b or n in eset):
+                break
+            vb_, _ = sim.functions(nb, ins_all)
+            fb_, _ = sim.functions(nb, ins_all, override={n: (lambda v: v ^ mask)})
+            diff_b = 0
+            for e in eset:
+                diff_b |= vb_[e] ^ fb_[e]
+            ok2, m2 = ctx.call(cg.tx.sensitization_transform, cb, n, eps)
+            ctx.count("requery_after_count_preserving_rewire")
+            if not ok2:
+                ctx.violation("sensitization_transform_raised", f"after moving one wire ({old}->{g} became {new_drv[0]}->{g}): sensitization_transform({n!r},{eps!r}) raised {m2!r}")
+            else:
+                try:
+                    mv2, _ = sim.functions(Net.of(m2), ins_all)
+                    if mv2.get("sat") != diff_b:
+                        ctx.violation("sensitization_sat_after_rewire", f"after moving one wire ({old}->{g} became {new_drv[0]}->{g}) on the same Circuit object, `sat` of sensitization_transform({n!r},{eps!r}) no longer matches the circuit")
+                except (ValueError, KeyError) as e_:
+                    ctx.violation("sensitization_sat_after_rewire", f"after moving one wire the transform result cannot be evaluated: {e_!r}")
+            break
 
     # ------------------------------------------------------------ sensitize (all outputs)
     diff_all = 0
@@ -347,7 +393,7 @@ def gates(counters, table, tier):
     for s in (1, 2, 3, 4, 5, 6, 7, 8):
         if counters.get(f"cone_startpoints:{s}", 0) < 3:
             out.append(f"cone with {s} startpoints seen {counters.get(f'cone_startpoints:{s}', 0)} times")
-    for k in ("mode:input", "mode:const_fn", "mode:output", "explicit_endpoints", "sens_impossible", "sens_possible", "sensitize_none", "sensitize_found", "sensitivity:0", "cmp:influence", "cmp:influence_of_two_nodes", "cmp:sensitivity_transform", "x_constant_outside_the_cone", "popcount_block_edited_before_analysis"):
+    for k in ("mode:input", "mode:const_fn", "mode:output", "explicit_endpoints", "sens_impossible", "sens_possible", "sensitize_none", "sensitize_found", "sensitivity:0", "cmp:influence", "cmp:influence_of_two_nodes", "cmp:sensitivity_transform", "x_constant_outside_the_cone", "popcount_block_edited_before_analysis", "requery_after_count_preserving_rewire", "sole_output_with_input_outside_cone"):
         if counters.get(k, 0) < 5:
             out.append(f"{k} seen {counters.get(k, 0)} times")
     return out
